@@ -64,7 +64,9 @@ theorem decHead_mt (x : UInt8) (t : Bytes) {mt ai arg : Nat} {r : Bytes} (h : de
   · simp at h; exact ⟨h.1.symm, h.2.1.symm⟩
   · split at h
     · simp at h
-    · simp at h; exact ⟨h.1.symm, h.2.1.symm⟩
+    · split at h
+      · simp at h
+      · simp at h; exact ⟨h.1.symm, h.2.1.symm⟩
 
 /-- bytes that start with a head of major type 0..6 are not null/undefined -/
 theorem isNullHead_encHead (mt n : Nat) (rest : Bytes) (hmt : mt < 7) : isNullHead (encHead mt n ++ rest) = none := by
